@@ -920,8 +920,6 @@ func run(c *lib.Ctx) {
 		phaseQueue(c)
 		phaseEscape(c)
 	}
-	phaseLists(c)
-	phaseProtection(c)
 	// Half of the shards explore schedules, the other half run the race pass.
 	half := c.ShardN / 2
 	if half == 0 {
@@ -1036,9 +1034,46 @@ func replay(c *lib.Ctx, raw json.RawMessage) string {
 	return ""
 }
 
+// mainC01Histories: the same assembly serves property C01 for its clauses over
+// histories of admin operations ("a name of an *enabled* list is blocked", "with
+// protection switched off nothing is blocked"): bin/check C01 runs this binary
+// with VERIF_AS=C01-histories after C01's own harness.
+func mainC01Histories() {
+	lib.Main(&lib.Harness{
+		Prop: "C01", Level: "model_checking",
+		Shards: func(string) int { return 16 },
+		Budget: func(tier string) time.Duration {
+			if tier == "thorough" {
+				return 15 * time.Minute
+			}
+			return 3 * time.Minute
+		},
+		Run: func(c *lib.Ctx) {
+			srv.Quiet()
+			phaseLists(c)
+			phaseProtection(c)
+		},
+		Replay: replay,
+		Evidence: func(m *lib.Merged) map[string]any {
+			return map[string]any{
+				"evaluations":          m.Counters["evals"],
+				"list_histories":       m.Counters["list_histories"],
+				"protection_histories": m.Counters["protection_histories"],
+				"distinct_nontrivial":  m.Distinct["nontrivial"],
+				"rule":                 "on the full assembly (server, filter with file lists, clients, query log, statistics) through the real admin handlers: every history of <=4 (thorough 6) list life-cycle operations (disable, enable, refresh, remove, add, source edited) and every history of <=4 (thorough 5) protection operations (timed pause, off, on, on/off through dns_config, clock +2 h); after every step a query for a name of the block list must be blocked exactly when the list is present and enabled, respectively when protection is on",
+			}
+		},
+		Assumptions: []string{"protection_enabled=false sent through dns_config while a timed pause is running may mean 'leave as is' or 'off for good': what happens at the deadline is then not judged"},
+	})
+}
+
 func main() {
 	if spec := os.Getenv("VERIF_C05_CELL"); spec != "" {
 		childMain(spec)
+		return
+	}
+	if os.Getenv("VERIF_AS") == "C01-histories" {
+		mainC01Histories()
 		return
 	}
 	runtime.GOMAXPROCS(runtime.GOMAXPROCS(0))
